@@ -141,6 +141,7 @@ type FnCtx struct {
 	unroll       int
 	cmpLabel     string
 	frameNoted   bool
+	runeRows     [][3]string // []rune(s) conversions: string term, element row term, length term
 	axiomsDone   bool
 	axiomCache   []string
 	baseElem     map[string]types.Type
